@@ -173,6 +173,13 @@ class SharedFlow:
                 if e.attr in self.shared_attrs.get(f.cls.qualname, ()):  # self.X
                     return self.origin.get((f.cls.qualname, e.attr), "self.%s" % e.attr)
                 return None
+            # obj.X where obj is an instance of a package class whose X holds a shared object (self.stage.X)
+            try:
+                t = self.ctx.res.expr_type(e.value, f, self.ctx.res.local_types(f))
+            except Exception:
+                t = None
+            if t and e.attr in self.shared_attrs.get(t, ()):
+                return self.origin.get((t, e.attr), "%s.%s" % (t.rsplit(".", 1)[-1], e.attr))
             return None
         if isinstance(e, ast.Call) and isinstance(e.func, ast.Attribute) and e.func.attr == "get" and e.args:
             d = self.rooted(f, e.func.value, al, exclude)
@@ -229,6 +236,10 @@ class SharedFlow:
                 if isinstance(d, ast.Name) and d.id in roots:
                     self.shared_params.setdefault(f.qualname, set()).add(p)
                     self.origin[(f.qualname, p)] = "module-level %s (default of parameter %s)" % (d.id, p)
+                elif _is_container_value(d):
+                    # a container display as default is built once, when the function is defined
+                    self.shared_params.setdefault(f.qualname, set()).add(p)
+                    self.origin[(f.qualname, p)] = "the default value of parameter %s of %s (one object for every call)" % (p, f.name)
         # containers built in the constructor of an object that lives across batches
         for f in funcs:
             if f.cls is not None and f.cls.qualname in self.long_lived and f.name == "__init__" and f.params:
